@@ -29,21 +29,20 @@ Proof. intros H1 H2. eapply h_try with (E1 := fun _ => SN); [apply H1|intros e _
 Lemma sn_log e : sn (log (P:=P) e). Proof. intros w H. exact H. Qed.
 Lemma sn_pop : sn (@pop P). Proof. intros w H. unfold pop. destruct (w_script w); exact H. Qed.
 Lemma sn_call e : sn (call (P:=P) e).
-Proof. unfold call. apply sn_bind; [apply sn_log|]. intros ?u; cbn beta. apply sn_bind; [apply sn_pop|]. intros [|x]; [apply sn_ret|apply sn_throw]. Qed.
+Proof. unfold call. apply sn_bind; [apply sn_log|]. intros ?u; cbn beta. apply sn_bind; [apply sn_pop|]. intros [|x|x]; [apply sn_ret|apply sn_throw|apply sn_ret]. Qed.
 Lemma sn_fresh_sid : sn (@fresh_sid P). Proof. intros w H. exact H. Qed.
 Lemma sn_fresh_wrapped raw : sn (@fresh_wrapped P raw). Proof. intros w H. exact H. Qed.
 
 Lemma sn_try_make j : sn (try_make P c j).
 Proof.
-  unfold try_make. apply sn_bind; [apply sn_pop|]. intros [|e].
-  - apply sn_bind; [apply sn_fresh_sid|]. intros sid. apply sn_bind; [apply sn_log|]. intros ?u; cbn beta.
-    apply sn_try.
-    + apply sn_bind; [destruct (c_nodelay c); [apply sn_call|apply sn_ret]|]. intros ?u; cbn beta.
-      destruct (c_tls c); [|apply sn_ret]. apply sn_bind; [apply sn_pop|]. intros [|e2].
-      * apply sn_bind; [apply sn_fresh_wrapped|]. intros w. apply sn_bind; [apply sn_log|]. intros ?u; cbn beta. apply sn_ret.
-      * apply sn_bind; [apply sn_log|]. intros ?u; cbn beta. apply sn_throw.
-    + intros e. apply sn_bind; [apply sn_call|]. intros ?u; cbn beta. apply sn_ret.
-  - apply sn_bind; [apply sn_log|]. intros ?u; cbn beta. destruct (exn_isa e Exception_); [apply sn_ret|apply sn_throw].
+  unfold try_make. apply sn_bind; [apply sn_pop|]. intros [|e|e].
+  2:{ apply sn_bind; [apply sn_log|]. intros ?u; cbn beta. destruct (exn_isa e Exception_); [apply sn_ret|apply sn_throw]. }
+  all: apply sn_bind; [apply sn_fresh_sid|]; intros sid; apply sn_bind; [apply sn_log|]; intros ?u; cbn beta;
+    apply sn_try; [|intros e0; apply sn_bind; [apply sn_call|]; intros ?u; cbn beta; apply sn_ret];
+    apply sn_bind; [destruct (c_nodelay c); [apply sn_call|apply sn_ret]|]; intros ?u; cbn beta;
+    (destruct (c_tls c); [|apply sn_ret]); apply sn_bind; [apply sn_pop|]; intros [|e2|e2];
+    [|apply sn_bind; [apply sn_log|]; intros ?u; cbn beta; apply sn_throw|];
+    (apply sn_bind; [apply sn_fresh_wrapped|]; intros w; apply sn_bind; [apply sn_log|]; intros ?u; cbn beta; apply sn_ret).
 Qed.
 Lemma sn_addr_loop : forall n j err, sn (addr_loop P c j n err).
 Proof.
@@ -71,9 +70,10 @@ Proof.
   - destruct (c_tcp c).
     + apply sn_bind; [apply sn_call|]. intros ?u; cbn beta. apply sn_bind; [apply sn_addr_loop|].
       intros [[sj|] [e|]]; try apply sn_throw; apply sn_ret.
-    + apply sn_bind; [apply sn_pop|]. intros [|e].
+    + apply sn_bind; [apply sn_pop|]. intros [|e|e].
       * apply sn_bind; [apply sn_fresh_sid|]. intros sid. apply sn_bind; [apply sn_log|]. intros ?u; cbn beta. apply sn_ret.
       * apply sn_bind; [apply sn_log|]. intros ?u; cbn beta. apply sn_throw.
+      * apply sn_bind; [apply sn_fresh_sid|]. intros sid. apply sn_bind; [apply sn_log|]. intros ?u; cbn beta. apply sn_ret.
   - intros [sid j]. eapply h_bind with (Q1 := fun _ => SN).
     + apply sn_try.
       * apply sn_bind; [apply sn_call|]. intros ?u; cbn beta.
